@@ -47,6 +47,7 @@ import (
 	"path/filepath"
 	"reflect"
 	"runtime"
+	"runtime/pprof"
 	"runtime/debug"
 	"sort"
 	"strings"
@@ -504,6 +505,7 @@ type sweeper struct {
 	p            *pristine
 	obs          Obs
 	panicked     bool
+	noUnchecked  bool // skip the unchecked exports (altered length fields: an unchecked read may allocate GiBs, which is not this property's subject)
 	readPanicked bool // a read API panicked: the readable prefix ended there, not at an unreadable tx
 	cur          *atomic.Value
 	leaked       []string // API calls that returned with ImmuStore._valBsMux still locked
@@ -593,7 +595,7 @@ func (s *sweeper) sweep(dir string, persisted, indexAfterPanic bool, afterReads 
 	}
 	defer lib.Catch(func() { st.Close() })
 	tx := store.NewTx(maxTxEntries, maxKeyLen)
-	if s.p.cf.VCache {
+	if s.p.cf.VCache && !s.noUnchecked {
 		// what an unchecked read returns is not constrained by the property, but it must not influence the checked reads that follow
 		for t := 1; t <= nTx; t++ {
 			s.call(fmt.Sprintf("UncheckedExportTx#%d", t), func() (string, error) {
@@ -1100,7 +1102,7 @@ func (w *worker) run(a alteration, mode string, indexAfterPanic bool, partial fu
 			if mode == "rebuilt" {
 				os.RemoveAll(filepath.Join(w.dir, "index"))
 			}
-			s := &sweeper{p: p, obs: Obs{}, cur: &cur}
+			s := &sweeper{p: p, obs: Obs{}, cur: &cur, noUnchecked: a != nil && p.heavy(a)}
 			readable := s.sweep(w.dir, mode == "persisted", indexAfterPanic, func(r int) {
 				if partial != nil {
 					po := outcome{Partial: true}
@@ -1267,6 +1269,7 @@ func childMain(arg string) {
 			os.Exit(0)
 		}
 		enc.Encode(w.run(rq.Alt, rq.Mode, true, func(po outcome) { enc.Encode(po) }))
+		debug.FreeOSMemory() // (16 children holding the buffers of 64 heavy alterations each exhausted the machine's memory)
 	}
 }
 
@@ -1287,7 +1290,14 @@ func (ch *childProc) stop() {
 
 // runChild returns the outcome of the alteration executed in the worker's child process (a crash of the child
 // is a violation). The child is replaced after a crash and after 64 alterations (its heap only grows).
-func (w *worker) runChild(a alteration, mode string) outcome { return w.runChildOnce(a, mode, false) }
+// at most 2 alterations with large predicted allocations (up to 2 x 4 GiB each) run at the same time
+var heavySem = make(chan struct{}, 2)
+
+func (w *worker) runChild(a alteration, mode string) outcome {
+	heavySem <- struct{}{}
+	defer func() { <-heavySem }()
+	return w.runChildOnce(a, mode, false)
+}
 
 func (w *worker) runChildOnce(a alteration, mode string, retried bool) outcome {
 	p := w.p
@@ -1592,6 +1602,14 @@ func main() {
 		} else {
 			c.CapHit(fmt.Sprintf("ExportTx left its mutex locked in %d cases but only %d of 3 real follow-up calls blocked for %v", len(leaks), blocked, hangCap))
 		}
+	}
+	if pf := os.Getenv("C09_HEAPPROF"); pf != "" { // debugging aid
+		runtime.GC()
+		if f, err := os.Create(pf); err == nil {
+			pprof.WriteHeapProfile(f)
+			f.Close()
+		}
+		fmt.Fprintf(os.Stderr, "goroutines at the end: %d\n", runtime.NumGoroutine())
 	}
 	os.RemoveAll(root) // (Finish exits the process: deferred calls do not run)
 	c.Finish("every alteration (operators: 8 bit flips, 00, FF, ^b per byte; thorough: + every pair of bit flips less than 8 bytes apart) of every committed "+
